@@ -11,6 +11,7 @@ K3  the exit status is data-dependent on the error counter along
 K4  the value returned from main cannot wrap to 0 in 8 bits.
 """
 import json
+import re
 import os
 
 from . import common
@@ -339,6 +340,35 @@ def _error_guarded(fn, call):
         if prev["k"] not in ("NullStmt", "DeclStmt"):
             break
     return False
+
+
+PARSER_DEPTH_CONFIRMED = 10000
+
+
+def k16(rep):
+    """Nesting depth.  The passes after the parser (abnorm, macex, scobind, tinfer, genfoam) recurse once or more per nesting
+    level of the syntax tree on the C stack, and nothing in them bounds the depth.  The only bound on the depth of the tree they
+    receive is the parser's stack limit YYMAXDEPTH: beyond it bison reports `memory exhausted` as an ordinary counted error.
+    With the value confirmed here (bison's default, 10000) 150000-deep bracket/application nestings end in that diagnostic; a
+    sub-agent measured the first stack overflow of abnorm at about 45000 levels on the default 8 MB stack.  The limit in the
+    generated parser (macro value after preprocessing axl_y.c, so a definition in the prologue of axl.z is seen) must not be
+    raised above the confirmed value."""
+    defs = common.macro_defs("axl_y.c")
+    if "YYMAXDEPTH" not in defs:
+        raise AnalysisBroken("axl_y.c: YYMAXDEPTH is not defined after preprocessing (parser skeleton changed?)")
+    txt = defs["YYMAXDEPTH"][1].strip()
+    try:
+        val = int(eval(re.sub(r"[uUlL]+$", "", txt), {"__builtins__": {}}))
+    except Exception:
+        raise AnalysisBroken("axl_y.c: YYMAXDEPTH is `%s`, not an integer constant" % txt)
+    if val <= PARSER_DEPTH_CONFIRMED:
+        rep.ok("K16", "parser-depth-limit", sample={"YYMAXDEPTH": val})
+    else:
+        rep.violation("K16", "parser-depth-limit", "axl.z / axl_y.c (YYMAXDEPTH)",
+                      "the parser's stack limit is %d (confirmed value: %d).  It is the only bound on the nesting depth of the tree "
+                      "handed to the recursive passes: input nested more deeply than the C stack allows (about 45000 levels for "
+                      "abnorm on an 8 MB stack) now parses and then kills the compiler with SIGSEGV and no diagnostic, where it "
+                      "used to be rejected with `memory exhausted` and exit status 1" % (val, PARSER_DEPTH_CONFIRMED))
 
 
 def both_digest(f):
@@ -857,6 +887,7 @@ def run(tier, only=None):
     k10(rep)
     k12(rep)
     k13(rep)
+    k16(rep)
     from . import variant_dispatch
     variant_dispatch.report_absyn(rep, "K14", ["abnorm.c", "macex.c"], 15)
     from . import variadic
